@@ -13,8 +13,8 @@ RULE = ("every interleaving (quick: all, 2 processes; thorough: 3 processes up t
         "process dying in its critical section) of the real FilesystemLock.lock/unlock code; symlink/readlink/rmlink/kill/"
         "getpid are rebound to an atomic in-memory filesystem and pid table and each call is a scheduling point. "
         "non-trivial = distinct schedules in which at least one filesystem call failed (EEXIST/ENOENT/ESRCH), i.e. processes collided")
-BOUNDS = {"quick": "2 processes x (1|2 rounds) x {no lock, stale lock}, all interleavings",
-          "thorough": "quick + 3 processes, preemption bound 3; 2 processes with death in critical section"}
+BOUNDS = {"quick": "2 processes: 1 round x {no lock, stale lock}: all interleavings; 2 rounds: preemption bound 3 (no stale) / 2 (stale)",
+          "thorough": "2 processes x 2 rounds all interleavings (no stale) / bound 4 (stale); 3 processes bound 3; a process dying in its critical section, bound 3-4"}
 ASSUMPTIONS = ["symlink/readlink/unlink/kill are individually atomic (POSIX); one Python source line between them is not a scheduling point because the code shares no memory between processes",
                "schedules = complete executions; states/transitions count scheduler steps executed on the real code"]
 MIN = {"quick": {"evaluations": 1000, "nontrivial": 300, "outcomes": 3}}
@@ -150,27 +150,29 @@ def run_one(ch, nproc, rounds, stale, die):
     return out, fs.oplog, collided, s.steps, len(acquired)
 
 
-CONFIGS_Q = [(2, r, st, False) for r in (1, 2) for st in (False, True)]
-CONFIGS_T = CONFIGS_Q + [(3, 1, st, False) for st in (False, True)] + [(2, 2, st, True) for st in (False, True)] + [(3, 2, True, False)]
+# (nproc, rounds, stale, die, preemption bound or None = all interleavings)
+CONFIGS_Q = [(2, 1, False, False, None), (2, 1, True, False, None), (2, 2, False, False, 3), (2, 2, True, False, 2)]
+CONFIGS_T = [(2, 1, False, False, None), (2, 1, True, False, None), (2, 2, False, False, None), (2, 2, True, False, 4),
+             (3, 1, False, False, 3), (3, 1, True, False, 3), (2, 2, False, True, 4), (2, 2, True, True, 3)]
 
 
 def shards(tier, seed):
+    from mc.choice import shard_prefixes
     out = []
     for cfg in (CONFIGS_Q if tier == "quick" else CONFIGS_T):
-        nproc = cfg[0]
-        bound = None if nproc == 2 else 3
-        # shard on the first (free) choice: which process starts
-        for first in range(nproc):
-            out.append((cfg, bound, first))
+        bound = cfg[4]
+        for pre, dev in shard_prefixes(lambda c: run_one(c, *cfg[:4]), 5, bound):
+            out.append((cfg, pre, dev))
     return out
 
 
 def run_shard(shard, tier, seed):
-    cfg, bound, first = shard
+    cfg, pre, dev = shard
     cfg = tuple(cfg)
+    bound = cfg[4]
     st = Stats()
     seen_sig = {}
-    for ch, (bad, oplog, collided, steps, nacq) in explore(lambda c: run_one(c, *cfg), bound, prefix=[first]):
+    for ch, (bad, oplog, collided, steps, nacq) in explore(lambda c: run_one(c, *cfg[:4]), bound, prefix=pre, prefix_dev=dev):
         st.evaluations += 1
         st.states += steps
         st.transitions += steps
@@ -188,11 +190,10 @@ def run_shard(shard, tier, seed):
                              {"config": list(cfg), "schedule": ch.choices})
     if bound is not None:
         st.exhaustive = False
-        st.notes.append("C50: 3-process configurations explored up to %d preemptions (not all interleavings)" % bound) if False else None
     return st
 
 
 def replay(w):
     ch = Chooser(w["schedule"])
-    bad = run_one(ch, *w["config"])[0]
+    bad = run_one(ch, *w["config"][:4])[0]
     return bad
